@@ -4,4 +4,4 @@ From Conc Require Import Lin.
 From C35 Require Import Model ModelVm Gen Checker.
 Extraction "model.ml" drv_b2n drv_n2b drv_z_of_n drv_n_of_z drv_nat_of_n drv_n_of_nat
   r_new r_step r_run t_new t_run m_new m_run p_new p_run res_eqb r_buckets
-  lru_lin lru_lin_complete lru_cert lru_mode_get lru_mode_put lru_discipline_ok probe_runs default_lru_capacity default_capacity.
+  lru_lin lru_lin_complete lru_cert lru_pcert lru_mode_get lru_mode_put lru_discipline_ok probe_runs default_lru_capacity default_capacity.
